@@ -171,6 +171,15 @@ def cmd_setup(_args):
             log('[setup] Coq build FAILED')
             return 2
         log('[setup] Coq build ok (%.0f s)' % (time.time() - t0))
+        sys.path.insert(0, os.path.join(VERIF, 'tools'))
+        import corr
+        for var in ('default', 'alt'):
+            ok, out = corr.build_harness(var)
+            if not ok:
+                log(out[-4000:])
+                log('[setup] harness build FAILED (%s)' % var)
+                return 2
+        log('[setup] harness built (%.0f s)' % (time.time() - t0))
     return 0
 
 
